@@ -182,6 +182,8 @@ pub(crate) struct DecoderState {
     rep: [usize; 4],
     len_decoder: LenDecoder,
     rep_len_decoder: LenDecoder,
+    // Whether the end-of-stream marker has been decoded.
+    end_marker_seen: bool,
 }
 
 impl DecoderState {
@@ -210,6 +212,7 @@ impl DecoderState {
             rep: [0; 4],
             len_decoder: LenDecoder::new(),
             rep_len_decoder: LenDecoder::new(),
+            end_marker_seen: false,
         }
     }
 
@@ -246,6 +249,7 @@ impl DecoderState {
         self.rep = [0; 4];
         self.len_decoder = LenDecoder::new();
         self.rep_len_decoder = LenDecoder::new();
+        self.end_marker_seen = false;
     }
 
     pub fn set_unpacked_size(&mut self, unpacked_size: Option<u64>) {
@@ -373,6 +377,7 @@ impl DecoderState {
                 self.rep[0] = rep_0;
                 if self.rep[0] == 0xFFFF_FFFF {
                     if rangecoder.is_finished_ok()? {
+                        self.end_marker_seen = true;
                         return Ok(ProcessingStatus::Finished);
                     }
                     return Err(error::Error::LzmaError(String::from(
@@ -451,6 +456,13 @@ impl DecoderState {
                     rangecoder.is_finished_ok()? && self.partial_input_buf.position() as usize == 0
                 }
             } {
+                // Without a known unpacked size the end-of-stream marker is
+                // mandatory: running out of input is not a valid end.
+                if mode == ProcessingMode::Finish && !self.end_marker_seen {
+                    return Err(error::Error::LzmaError(String::from(
+                        "End of input reached without an end-of-stream marker",
+                    )));
+                }
                 break;
             }
 
@@ -722,6 +734,7 @@ impl LzmaDecoder {
 
         let mut rangecoder = RangeDecoder::new(input)
             .map_err(|e| error::Error::LzmaError(format!("LZMA stream too short: {}", e)))?;
+        self.state.end_marker_seen = false;
         self.state.process(&mut output, &mut rangecoder)?;
         output.finish()?;
         Ok(())
